@@ -13,6 +13,8 @@ documented equivalence (docs/_source/api/main.rst) are built as programs:
 Correspondence:
   L1-create  Front/Create.v `create_of` vs the recorded `_create` arguments, for every
              block of both sides (machinery of props/c16.py);
+  L1-createflat  Front/CreateFlat.v `create_flat` (model of `_create` as a whole, the object of
+             C24_create_flat_respects) vs the flat record of the real block, for every block of both sides;
   L1-equiv   whenever the side conditions of the C24 theorems hold on the real argument
              blocks (no weight desugaring, EQUAL_PREAMBLE, ...) the recorded `_create`
              arguments of the two sides are equal in the sense of the theorem
@@ -410,6 +412,15 @@ def run(ctx, res):
                 for st in steps:
                     lines.append("(create %s)" % st["exp"])
                     expect.append((rec, st, built.blocks.get(st["bid"]), lp, rp))
+                    blk = built.blocks.get(st["bid"])
+                    if blk is not None and st["recorded"] is not None:
+                        # _create as a whole: Front/CreateFlat.v create_flat vs the real flat record
+                        try:
+                            cl, ce = c16.createflat_observation(rec, st, blk)
+                            lines.append(cl)
+                            expect.append(("createflat", ce, None, lp, rp))
+                        except Exception as e:  # noqa
+                            stats["createflat-harness-error"] += 1
             # L1-equiv
             try:
                 app, eq, detail = predicted_equal(name, L, R)
@@ -447,6 +458,12 @@ def run(ctx, res):
     outs = ctx.model(lines) if lines else []
     corr_bad = []
     for (rec, st, blk, lp, rp), mod in zip(expect, outs):
+        if rec == "createflat":
+            ok = (st == mod)
+            res.layer("L1-createflat", ok)
+            if not ok:
+                corr_bad.append((lp, rp, c16.first_diff(st, mod), ""))
+            continue
         rv = c16.real_create_view(rec, st)
         try:
             mv = c16.model_create_view(mod)
